@@ -47,6 +47,12 @@ func main() {
 			dumpStates(prog)
 		case "loop":
 			dumpLoop(prog)
+		case "inline":
+			nm := ""
+			if len(args) > 0 {
+				nm = args[0]
+			}
+			dumpInline(prog, nm)
 		}
 		return
 	}
